@@ -60,6 +60,8 @@ impl WriteAheadLog {
     pub fn remove_last(&mut self, value_len: u64) -> Result<(), DbError> {
         let size = self.file.seek(SeekFrom::End(0))?;
         let new_size = size.saturating_sub(2 * u64::serialized_size_static() + value_len);
+        #[cfg(agdb_verif)]
+        crate::verif::fs_event(crate::verif::FsEvent::WalSetLen(new_size));
         Ok(self.file.set_len(new_size)?)
     }
 
